@@ -1517,8 +1517,10 @@ Example deepen_geometry_refuted_ex : exists rows' zs',
 Proof.
   destruct deepen_terminates_ex as ([rows' zs'] & Hd). exists rows', zs'. split; [exact Hd|].
   destruct ex_rows12_ok as (A & B & C & G & E).
-  destruct (deepen_geometry_refuted _ _ _ _ _ _ (ex_row 0 0) A B C G E ltac:(lra) Hd) as (H1 & H2 & H3 & H4).
-  pose proof (deepen_reaches _ _ _ _ _ _ Hd). repeat split; auto. lra.
+  assert (Hlt : 12 / 10 < 23 / 10 + 1 / 10) by lra.
+  destruct (deepen_geometry_refuted 13 (23 / 10) ex_rows12 (12 / 10) rows' zs' (ex_row 0 0) A B C G E Hlt Hd) as (H1 & H2 & H3 & H4).
+  pose proof (deepen_reaches _ _ _ _ _ _ Hd) as Hr.
+  split; [lra|]. split; [exact H2|]. split; [exact H1|exact H4].
 Qed.
 
 (* the former finding 9 (dz = [0.3]*4 under Maize looped for ever): with the repaired loop it terminates *)
@@ -1537,3 +1539,39 @@ Qed.
 (* the pedotransfer boxes are inhabited: a loam (40 % sand, 20 % clay, 2.5 % organic matter) *)
 Example texture_ex wp fc s ks : texture_props 40 20 (25 / 10) = Some (wp, fc, s, ks) -> 0 < wp /\ wp < fc /\ fc < s.
 Proof. apply texture_ordered_partial. left. unfold tex_box1. lra. Qed.
+
+(* initial water content: the hypotheses of iwc_layer_spec / iwc_layer_in_bounds / iwc_depth_spec are satisfiable *)
+Definition ex_rows2 : list RowR := [ex_row (1 / 10) (1 / 10); ex_row (1 / 10) (2 / 10)].
+
+Lemma ex_rows2_uniform : uniform_layers ex_rows2 /\ Forall (fun r => exists a, r_asg r = Some a) ex_rows2.
+Proof.
+  split.
+  - intros r1 r2 a1 a2 I1 I2 E1 E2 _. cbn in I1, I2.
+    destruct I1 as [<-|[<-|[]]], I2 as [<-|[<-|[]]]; cbn in E1, E2; congruence.
+  - repeat constructor; eexists; reflexivity.
+Qed.
+
+Example iwc_layer_ex : exists th, initial_wc TNum MLayer ex_rows2 (2 / 10) [1] [VNum (3 / 10)] = Some th /\ th = [3 / 10; 3 / 10].
+Proof.
+  destruct ex_rows2_uniform as [HU HA].
+  assert (E : exists th, initial_wc TNum MLayer ex_rows2 (2 / 10) [1] [VNum (3 / 10)] = Some th) by (cbn; eauto).
+  destruct E as (th & E). exists th. split; [exact E|].
+  rewrite (iwc_layer_spec _ _ _ _ _ _ HU HA E). cbn [map ex_rows2 ex_row r_asg spec_layer_value requested mk_asg a_layer].
+  rnum. change (Flocq.Core.Raux.Ztrunc 1) with (Flocq.Core.Raux.Ztrunc (IZR 1)). rewrite Flocq.Core.Raux.Ztrunc_IZR. reflexivity.
+Qed.
+
+Example iwc_depth_ex : exists values th,
+  increasing [5 / 100; 15 / 100] /\
+  iwc_values TNum MDepth ex_rows2 [5 / 100; 15 / 100] [VNum (2 / 10); VNum (3 / 10)] = Some values /\
+  initial_wc TNum MDepth ex_rows2 (2 / 10) [5 / 100; 15 / 100] [VNum (2 / 10); VNum (3 / 10)] = Some th.
+Proof.
+  exists [2 / 10; 3 / 10]. 
+  assert (Hi : increasing [5 / 100; 15 / 100]) by (repeat constructor; lra).
+  assert (Hv : iwc_values TNum MDepth ex_rows2 [5 / 100; 15 / 100] [VNum (2 / 10); VNum (3 / 10)] = Some [2 / 10; 3 / 10]) by reflexivity.
+  unfold initial_wc. rewrite Hv. cbn [nat_eqb_len length Nat.eqb negb]. rnum.
+  rewrite (Rltb_true 0 (5 / 100)) by lra. cbn [last_F]. rewrite (Rltb_true (15 / 100) (2 / 10)) by lra.
+  cbn [app last_F interp_rows ex_rows2 ex_row r_dzsum interp last_F]. rnum.
+  rewrite (Rltb_false (2 / 10) ((0 + 1 / 10) / 2)) by lra. rewrite (Rltb_false ((0 + 1 / 10) / 2) 0) by lra.
+  rewrite (Rltb_false (2 / 10) ((1 / 10 + 2 / 10) / 2)) by lra. rewrite (Rltb_false ((1 / 10 + 2 / 10) / 2) 0) by lra.
+  eexists. split; [exact Hi|]. split; reflexivity.
+Qed.
